@@ -836,6 +836,13 @@ class Interp(object):
             tgt = self.api.subscript(self, fr, base, idx, target, quiet=True)
             self.emit("store-shape", fr, st, target_shape=tgt.shape, value_shape=self.api.as_num(v).shape, base=base, value=v,
                       index=idx)
+            ts_, vs_ = tgt.shape, self.api.as_num(v).shape
+            if ts_ is not None and vs_ is not None and len(ts_) == 1 and len(vs_) == 1 and ts_[0] is not None and vs_[0] is not None and \
+                    how == "subscript-store" and not tgt.indef and not v.indef:
+                d_ = ts_[0] - vs_[0]
+                if d_.is_const() and d_.c != 0 and not (vs_[0].is_const() and vs_[0].c == 1):
+                    # a[slice] = b with lengths that differ by a constant for every input (n - 1 slots for n values): ValueError
+                    self.emit("type-error", fr, st, what="store of %r value(s) into %r slot(s): shapes cannot be broadcast (ValueError)" % (vs_[0], ts_[0]))
         self.mutate(fr, base, st, how, upd, index=idx, value=v)
 
     def _rebind_container(self, fr, expr, nv, st, how):
